@@ -150,6 +150,13 @@ vfps::ElectricField::updateCSR( const frequency_t cutoff_frequency)
         _phasespace->syncCLMem(OCLH::clCopyDirection::dev2cpu);
     }
     #endif // INOVESA_USE_CLTTT
+        #if INOVESA_USE_OPENCL == 1
+        if (!_oclh)
+        #endif // INOVESA_USE_OPENCL
+        {
+            // buffer is shared with padBunchProfiles(): remove its leftovers
+            std::fill_n(_bp_padded,_nmax,integral_t(0));
+        }
         for (uint32_t n = 0; n < _nbunches; n++) {
         #if INOVESA_USE_OPENCL == 1
         if (!_oclh)
@@ -255,6 +262,8 @@ vfps::meshaxis_t *vfps::ElectricField::wakePotential()
 void vfps::ElectricField::padBunchProfiles()
 {
     auto bp= _phasespace->getProjection(0);
+    // buffer is shared with updateCSR(): remove its leftovers
+    std::fill_n(_bp_padded,_nmax,integral_t(0));
     for (uint32_t b=0; b<PhaseSpace::nb; b++) {
         std::copy_n( bp.origin()+b*PhaseSpace::nx
                    , PhaseSpace::nx
